@@ -299,6 +299,20 @@ def check_fall(case, ctx: Ctx):
                 ctx.fail(C, f"residual_after_fall_time:{name}:{'eom' if in_eom else 'std'}",
                          f"bw {b} MHz: {name} output {tail[i]:.4g} at {ft + i} ns after the pulse end "
                          f"(fall time {ft}, limit {lim:.4g}, peak {np.max(np.abs(x)):.4g})", cont=True)
+    # the waveform-level view (Waveform.modulated_samples, used by drawing): the channel's output
+    # cut to the waveform's own buffers - same numbers as Channel.modulate, nothing above the
+    # bound left out
+    for name, wf, x in (("amp", p.amplitude, xa), ("det", p.detuning, xd)):
+        tr = int(ch.rise_time)
+        start, end = (int(v) for v in ctx.must(lambda: wf.modulation_buffers(ch), C, "modulation_buffers"))
+        got = np.asarray(ctx.must(lambda: wf.modulated_samples(ch), C, "modulated_samples").as_array(), dtype=float)
+        full = np.asarray(ch.modulate(x).as_array(), dtype=float)
+        exp = full[tr - start: len(full) - tr + end]
+        if got.shape != exp.shape or (got.size and np.max(np.abs(got - exp)) > 1e-9 * max(1.0, float(np.max(np.abs(x))))):
+            ctx.fail(C, f"waveform_modulated_samples:{name}",
+                     f"bw {case['bw']} MHz, buffers ({start}, {end}), rise time {tr}: {len(got)} samples, expected "
+                     f"{len(x)} + {start} + {end} = {len(exp)} equal to that part of Channel.modulate", cont=True)
+            break
 
 
 # ------------------------------------------------------------------ sequences
